@@ -215,7 +215,7 @@ func execProgram(cfg Config, prog []Op, seed int64) (p *produced, err error) {
 	var w *pdf.Writer
 	var fileBytes func() []byte
 	if cfg.Seekable {
-		ms := &shared.MemSink{}
+		ms := &shared.SeekMemSink{}
 		w, err = pdf.NewWriter(ms, version, opt)
 		fileBytes = ms.Bytes
 	} else {
@@ -320,7 +320,7 @@ func execProgram(cfg Config, prog []Op, seed int64) (p *produced, err error) {
 			e := stm.Close()
 			stm = nil
 			if e != nil {
-				return p, nil // the Writer is unusable; no file
+				return p, fmt.Errorf("%w: CloseStream: %v", errNotClosed, e) // the Writer is unusable; no file
 			}
 			p.Objs = append(p.Objs, cur)
 			p.Objs = append(p.Objs, queued...)
@@ -335,8 +335,8 @@ func execProgram(cfg Config, prog []Op, seed int64) (p *produced, err error) {
 				refs[k] = pdf.NewReference(nm(n), 0)
 				objs[k] = shared.ToPDF(vals[o.V])
 			}
-			if w.WriteCompressed(refs, objs...) != nil {
-				return p, nil
+			if e := w.WriteCompressed(refs, objs...); e != nil {
+				return p, fmt.Errorf("%w: WriteCompressed: %v", errNotClosed, e)
 			}
 			for _, n := range o.Ns {
 				p.Objs = append(p.Objs, wobj{Ref: obj.Ref{Num: nm(n)}, Kind: "plain", Val: vals[o.V], ID: o.V})
@@ -347,13 +347,13 @@ func execProgram(cfg Config, prog []Op, seed int64) (p *produced, err error) {
 			}
 			pref := w.Alloc()
 			if e := w.Put(pref, pdf.Dict{"Type": pdf.Name("Pages"), "Kids": pdf.Array{}, "Count": pdf.Integer(0)}); e != nil {
-				return p, nil
+				return p, fmt.Errorf("%w: Put(pages): %v", errNotClosed, e)
 			}
 			title := fmt.Sprintf("C10 info title %d", r.Int63())
 			w.GetMeta().Catalog.Pages = pref
 			w.GetMeta().Info.Title = pdf.TextString(title)
 			if e := w.Close(); e != nil {
-				return p, nil
+				return nil, fmt.Errorf("Writer.Close: %w", e)
 			}
 			p.Objs = append(p.Objs, wobj{Kind: "info", Marker: []byte(title), ID: "info"})
 			closed = true
